@@ -429,6 +429,14 @@ func TestC12(t *testing.T) {
 					steps = steps[:14]
 				}
 			}
+			if strings.HasPrefix(c.kind, "sqlite") && h == 0 {
+				// a live subscription over a log that grows past nine events, then restarts (unpadded offsets)
+				steps = []step{{K: "sub", S: 0}}
+				for k := 0; k < 12; k++ {
+					steps = append(steps, step{K: "pub", T: 0})
+				}
+				steps = append(steps, step{K: "restart"}, step{K: "sub", S: 0}, step{K: "pub", T: 0}, step{K: "pub", T: 0}, step{K: "restart"}, step{K: "sub", S: 0}, step{K: "sub", S: 1})
+			}
 			durable := strings.HasPrefix(c.kind, "durable")
 			base, err := execute(c.kind, scratch, steps, faultSpec{Kind: "none"})
 			if err != nil {
